@@ -11,10 +11,12 @@ variable {κ : Type} [DecidableEq κ] (cfg : Cfg κ)
 
 theorem bindName_ok {st st' : State κ} {pn rn : Bytes} {pa ra : Addr} {r : Bool}
     (h : bindName cfg st pn pa rn ra r = .ok st') :
-    ∃ par name k, getRecordByName cfg st pn = some par ∧ (par.restricted = true → par.addr = pa) ∧
+    ∃ par name k, getRecordByName cfg st pn = some par ∧
+      (par.restricted = true → par.addr = cfg.canon pa) ∧
       normalize cfg (rn ++ dot :: pn) = .ok name ∧ getNameKeyPrefix cfg name = .ok k ∧
-      get st.recs k = none ∧
-      st' = { recs := set st.recs k ⟨name, ra, r⟩, idx := set st.idx (ra, k) ⟨name, ra, r⟩ } := by
+      get st.recs k = none ∧ cfg.addrOk ra = true ∧
+      st' = { recs := set st.recs k ⟨name, cfg.canon ra, r⟩,
+              idx := set st.idx (cfg.canon ra, k) ⟨name, cfg.canon ra, r⟩ } := by
   unfold bindName at h
   split at h
   · cases h
@@ -31,7 +33,8 @@ theorem bindName_ok {st st' : State κ} {pn rn : Bytes} {pa ra : Addr} {r : Bool
           · cases h
           · split at h
             · cases h
-            · split at h
+            · rename_i hra
+              split at h
               · cases h
               · rename_i st2 hset
                 cases h
@@ -39,7 +42,7 @@ theorem bindName_ok {st st' : State κ} {pn rn : Bytes} {pa ra : Addr} {r : Bool
                 have hidem := normalize_idem cfg hname
                 rw [hidem] at hn2
                 cases hn2
-                refine ⟨par, name, k, hpar, ?_, hname, hk, hfree, rfl⟩
+                refine ⟨par, name, k, hpar, ?_, hname, hk, hfree, by simpa using hra, rfl⟩
                 intro hr
                 simp only [hr, Bool.true_and, Bool.or_eq_true, Bool.not_eq_true', not_or,
                   Bool.not_eq_false] at hres
@@ -50,7 +53,7 @@ theorem bindName_ok {st st' : State κ} {pn rn : Bytes} {pa ra : Addr} {r : Bool
 theorem deleteName_ok {st st' : State κ} {rn : Bytes} {ra : Addr}
     (h : deleteName cfg st rn ra = .ok st') :
     ∃ name k rec, normalize cfg rn = .ok name ∧ getNameKeyPrefix cfg name = .ok k ∧
-      get st.recs k = some rec ∧ rec.addr = ra ∧
+      get st.recs k = some rec ∧ rec.addr = cfg.canon ra ∧
       st' = { recs := del st.recs k, idx := del st.idx (rec.addr, k) } := by
   unfold deleteName at h
   split at h
@@ -84,8 +87,9 @@ theorem modifyName_ok {st st' : State κ} {a addr : Addr} {name : Bytes} {r : Bo
     ∃ existing n k, getRecordByName cfg st name = some existing ∧
       (a = cfg.authority ∨ a = existing.addr) ∧
       normalize cfg name = .ok n ∧ getNameKeyPrefix cfg n = .ok k ∧
-      st' = { recs := set st.recs k ⟨n, addr, r⟩,
-              idx := set (idxWithoutOld st k addr) (addr, k) ⟨n, addr, r⟩ } := by
+      cfg.addrOk addr = true ∧
+      st' = { recs := set st.recs k ⟨n, cfg.canon addr, r⟩,
+              idx := set (idxWithoutOld st k (cfg.canon addr)) (cfg.canon addr, k) ⟨n, cfg.canon addr, r⟩ } := by
   unfold modifyName at h
   split at h
   · cases h
@@ -95,12 +99,13 @@ theorem modifyName_ok {st st' : State κ} {a addr : Addr} {name : Bytes} {r : Bo
     · rename_i hauth
       split at h
       · cases h
-      · split at h
+      · rename_i haddr
+        split at h
         · cases h
         · rename_i st2 hup
           cases h
           obtain ⟨n, k, hn, hk, rfl⟩ := updateNameRecord_ok cfg hup
-          refine ⟨existing, n, k, hex, ?_, hn, hk, rfl⟩
+          refine ⟨existing, n, k, hex, ?_, hn, hk, by simpa using haddr, rfl⟩
           by_cases h1 : a = cfg.authority
           · exact Or.inl h1
           · by_cases h2 : a = existing.addr
@@ -151,8 +156,8 @@ theorem createRootLoop_effect (addr : Addr) (restricted : Bool) (segs : List Byt
 
 theorem createRootNameMsg_ok {st st' : State κ} {a owner : Addr} {name : Bytes} {r : Bool}
     (h : createRootNameMsg cfg st a name owner r = .ok st') :
-    a = cfg.authority ∧
-      createRootLoop cfg owner r (splitDot name).reverse [] st = .ok st' := by
+    a = cfg.authority ∧ cfg.addrOk owner = true ∧
+      createRootLoop cfg (cfg.canon owner) r (splitDot name).reverse [] st = .ok st' := by
   unfold createRootNameMsg at h
   split at h
   · cases h
@@ -162,7 +167,8 @@ theorem createRootNameMsg_ok {st st' : State κ} {a owner : Addr} {name : Bytes}
     · cases h
     · split at h
       · cases h
-      · exact ⟨(not_not.mp hauth).symm, h⟩
+      · rename_i hown
+        exact ⟨(not_not.mp hauth).symm, by simpa using hown, h⟩
 
 theorem step_ok_cases {st st' : State κ} {op : Op} (h : step cfg st op = .ok st') :
     match op with
@@ -181,10 +187,10 @@ theorem inv_step {st st' : State κ} (hI : Inv cfg st) {op : Op} (h : step cfg s
   have hc := step_ok_cases cfg h
   cases op with
   | root a n o r =>
-    obtain ⟨-, hl⟩ := createRootNameMsg_ok cfg hc
+    obtain ⟨-, -, hl⟩ := createRootNameMsg_ok cfg hc
     exact inv_createRootLoop cfg _ _ _ _ _ _ hI hl
   | bind pn pa rn ra r =>
-    obtain ⟨par, name, k, -, -, hn, hk, hfree, rfl⟩ := bindName_ok cfg hc
+    obtain ⟨par, name, k, -, -, hn, hk, hfree, -, rfl⟩ := bindName_ok cfg hc
     refine inv_set cfg hI hk (normalize_idem cfg hn) st.idx hI.idxNodup (fun _ _ _ => rfl) ?_
     intro a _
     cases hg : get st.idx (a, k) with
